@@ -1,10 +1,12 @@
 import FrappyProofs.Lemmas.LifecycleGroups
+import FrappyProofs.Lemmas.LifecycleOnce
 /-
 Helper lemmas for C15: parameters of a module description, `_handle_writes`, and the link between the descriptions of a
 configuration and the module objects of the node.
 -/
 namespace Frappy.Proofs.LifecycleParams
 open Frappy.Lifecycle Frappy.Spec.C15 Frappy.Proofs.Lifecycle Frappy.Proofs.LifecycleInit Frappy.Proofs.LifecycleWait
+  Frappy.Proofs.LifecycleOnce
 
 /-- keys of a dictionary: two entries with the same key are the same entry -/
 theorem nodup_map_inj {α β : Type} (f : α → β) : ∀ (l : List α), (l.map f).Nodup → ∀ a ∈ l, ∀ b ∈ l, f a = f b → a = b
@@ -18,5 +20,551 @@ theorem nodup_map_inj {α β : Type} (f : α → β) : ∀ (l : List α), (l.map
     · rcases List.mem_cons.mp hb with rfl | hb'
       · exact absurd hab (h.1 a ha')
       · exact nodup_map_inj f l h.2 a ha' b hb' hab
+
+/-! ## what a piece of the initialisation phase can change of the tables of the node
+
+`Ext st st'`: `module_cfg` is left alone, errors / modules / registrations for polling / module objects / the table of
+automatic communicators only grow — and (`nc`) **nothing is created any more** once every description known to the
+node has been tried: a piece that ends without an error has created no module. -/
+
+/-- every description the node knows has been tried: its module exists, or the attempt was recorded as an error -/
+def KC (st : St) : Prop := ∀ k ∈ st.known, k.name ∈ st.modules ∨ st.errors ≠ []
+
+structure Ext (st st' : St) : Prop where
+  known : st'.known = st.known
+  errs : st'.errors = [] → st.errors = []
+  mods : ∀ x ∈ st.modules, x ∈ st'.modules
+  groups : ∃ ext, st'.groups = st.groups ++ ext
+  mcfg : ∃ ext, st'.mcfg = st.mcfg ++ ext
+  ioDict : ∃ ext, st'.ioDict = st.ioDict ++ ext
+  nc : KC st → st'.errors = [] → st'.modules = st.modules ∧ st'.mcfg = st.mcfg ∧ st'.ioDict = st.ioDict
+
+theorem Ext.refl (st : St) : Ext st st :=
+  ⟨rfl, id, fun _ h => h, ⟨[], by simp⟩, ⟨[], by simp⟩, ⟨[], by simp⟩, fun _ _ => ⟨rfl, rfl, rfl⟩⟩
+
+theorem Ext.kc {a b : St} (h : Ext a b) (hk : KC a) (he : b.errors = []) : KC b := by
+  intro k hk'
+  rw [h.known] at hk'
+  rcases hk k hk' with hm | hne
+  · exact Or.inl (h.mods _ hm)
+  · exact absurd (h.errs he) hne
+
+theorem Ext.trans {a b c : St} (h1 : Ext a b) (h2 : Ext b c) : Ext a c := by
+  refine ⟨h2.known.trans h1.known, fun h => h1.errs (h2.errs h), fun x hx => h2.mods x (h1.mods x hx), ?_, ?_, ?_, ?_⟩
+  · obtain ⟨e1, h1'⟩ := h1.groups; obtain ⟨e2, h2'⟩ := h2.groups
+    exact ⟨e1 ++ e2, by rw [h2', h1', List.append_assoc]⟩
+  · obtain ⟨e1, h1'⟩ := h1.mcfg; obtain ⟨e2, h2'⟩ := h2.mcfg
+    exact ⟨e1 ++ e2, by rw [h2', h1', List.append_assoc]⟩
+  · obtain ⟨e1, h1'⟩ := h1.ioDict; obtain ⟨e2, h2'⟩ := h2.ioDict
+    exact ⟨e1 ++ e2, by rw [h2', h1', List.append_assoc]⟩
+  · intro hk he
+    have hb : b.errors = [] := h2.errs he
+    obtain ⟨m1, c1, i1⟩ := h1.nc hk hb
+    obtain ⟨m2, c2, i2⟩ := h2.nc (h1.kc hk hb) he
+    exact ⟨m2.trans m1, c2.trans c1, i2.trans i1⟩
+
+/-- a change of the log, the stack, the attachments, the bookkeeping of initialisation only -/
+theorem Ext.of_same {st st' : St} (h1 : st'.known = st.known) (h2 : st'.errors = st.errors)
+    (h3 : st'.modules = st.modules) (h4 : st'.groups = st.groups) (h5 : st'.mcfg = st.mcfg)
+    (h6 : st'.ioDict = st.ioDict) : Ext st st' :=
+  ⟨h1, by rw [h2]; exact id, by rw [h3]; exact fun _ h => h, ⟨[], by simp [h4]⟩, ⟨[], by simp [h5]⟩,
+   ⟨[], by simp [h6]⟩, fun _ _ => ⟨h3, h5, h6⟩⟩
+
+theorem findCfg_some {l : List ModCfg} {n : Name} {c : ModCfg} (h : findCfg l n = some c) : c ∈ l ∧ c.name = n := by
+  unfold findCfg at h
+  exact ⟨List.mem_of_find?_eq_some h, by simpa using List.find?_some h⟩
+
+theorem ext_addEdge (st : St) (u d : Name) : Ext st (addEdge st u d) := by
+  unfold addEdge
+  split
+  · exact Ext.refl st
+  · exact Ext.of_same rfl rfl rfl rfl rfl rfl
+
+theorem ext_emit (st : St) (e : Ev) : Ext st (emit st e) := Ext.of_same rfl rfl rfl rfl rfl rfl
+
+theorem ext_getModuleInstance (st : St) (name : Name) : Ext st (getModuleInstance st name).1 := by
+  unfold getModuleInstance
+  split
+  · exact Ext.refl st
+  · rename_i hnc
+    split
+    · exact Ext.refl st
+    · rename_i c hc
+      obtain ⟨hck, hcn⟩ := findCfg_some hc
+      split
+      · refine ⟨rfl, by intro h; simp [addErr] at h, fun _ h => h, ⟨[], by simp [addErr]⟩, ⟨[], by simp [addErr]⟩,
+          ⟨[], by simp [addErr]⟩, ?_⟩
+        intro _ h; simp [addErr] at h
+      · -- the module object is created (and, for a HasIO user with a new `uri`, its communicator)
+        have hio : ∀ (s : St) (c : ModCfg), (hasIoCreate s c).1.known = s.known ∧ (hasIoCreate s c).1.errors = s.errors ∧
+            (hasIoCreate s c).1.groups = s.groups ∧ (∀ x ∈ s.modules, x ∈ (hasIoCreate s c).1.modules) ∧
+            (∃ ext, (hasIoCreate s c).1.mcfg = s.mcfg ++ ext) ∧ (∃ ext, (hasIoCreate s c).1.ioDict = s.ioDict ++ ext) := by
+          intro s c
+          unfold hasIoCreate
+          split
+          · split
+            · exact ⟨rfl, rfl, rfl, fun _ h => h, ⟨[], by simp⟩, ⟨[], by simp⟩⟩
+            · refine ⟨rfl, rfl, rfl, ?_, ⟨[autoIo (c.name ++ "_io")], rfl⟩, ⟨[_], rfl⟩⟩
+              intro x hx
+              simp only [addModule]
+              split
+              · exact hx
+              · exact List.mem_append_left _ hx
+          · exact ⟨rfl, rfl, rfl, fun _ h => h, ⟨[], by simp⟩, ⟨[], by simp⟩⟩
+        obtain ⟨k1, e1, g1, m1, ⟨x1, c1⟩, ⟨y1, i1⟩⟩ := hio st c
+        refine ⟨k1, by simp only [addModule]; rw [e1]; exact id, ?_, ⟨[], by simp [addModule, g1]⟩,
+          ⟨x1 ++ [(hasIoCreate st c).2], by simp [addModule, c1]⟩, ⟨y1, by simp [addModule, i1]⟩, ?_⟩
+        · intro x hx
+          simp only [addModule]
+          split
+          · exact m1 x hx
+          · exact List.mem_append_left _ (m1 x hx)
+        · intro hk he
+          have he' : st.errors = [] := by simpa [addModule, e1] using he
+          rcases hk c hck with hm | hne
+          · rw [hcn] at hm
+            exact absurd (by simpa using hm) hnc
+          · exact absurd he' hne
+
+def GSpecE (rec : St → Name → St × Res) : Prop := ∀ st name, Ext st (rec st name).1
+
+def StepE (f : Step) : Prop := ∀ st, Ext st (f st).1
+
+theorem ext_resolve {rec : St → Name → St × Res} (h : GSpecE rec) (u : Name) (att : Att) (st : St) :
+    Ext st (resolve rec u att st).1 := by
+  unfold resolve
+  cases att.target with
+  | none => exact Ext.refl st
+  | some t =>
+    have f1 := h st t
+    cases hr : rec st t with
+    | mk st1 res =>
+      rw [hr] at f1
+      simp only [hr]
+      cases res with
+      | raised cls => exact f1
+      | none => exact f1
+      | ok d =>
+        simp only
+        split
+        · split
+          · exact f1
+          · exact f1.trans (ext_addEdge st1 u d)
+        · exact f1
+
+theorem ext_touch {rec : St → Name → St × Res} (h : GSpecE rec) (c : ModCfg) (a : String) : StepE (touch rec c a) := by
+  intro st
+  unfold touch
+  cases findAtt c a with
+  | none => exact Ext.refl st
+  | some att =>
+    have f1 := ext_resolve h c.name att st
+    cases hr : resolve rec c.name att st with
+    | mk st1 res =>
+      rw [hr] at f1
+      simp only [hr]
+      cases res with
+      | mod d => exact f1.trans (ext_emit st1 _)
+      | nothing => exact f1
+      | raised cls => exact f1
+
+theorem ext_resolveStep {rec : St → Name → St × Res} (h : GSpecE rec) (c : ModCfg) (att : Att) :
+    StepE (resolveStep rec c att) := by
+  intro st
+  unfold resolveStep
+  have f1 := ext_resolve h c.name att st
+  cases hr : resolve rec c.name att st with
+  | mk st1 res =>
+    rw [hr] at f1
+    cases res <;> exact f1
+
+theorem ext_failIf (b : Bool) (cls : String) : StepE (failIf b cls) := fun st => Ext.refl st
+
+theorem ext_emitStep (e : Ev) : StepE (emitStep e) := fun st => ext_emit st e
+
+theorem ext_hasIoCheck {rec : St → Name → St × Res} (h : GSpecE rec) (c : ModCfg) : StepE (hasIoCheck rec c) := by
+  intro st
+  unfold hasIoCheck
+  split
+  · cases findAtt c "io" with
+    | none => exact Ext.refl st
+    | some att =>
+      have f1 := ext_resolve h c.name att st
+      cases hr : resolve rec c.name att st with
+      | mk st1 res =>
+        rw [hr] at f1
+        simp only [hr]
+        cases res <;> exact f1
+  · exact Ext.refl st
+
+theorem ext_groups (st : St) (g : List (Name × Name)) : Ext st { st with groups := st.groups ++ g } :=
+  ⟨rfl, id, fun _ h => h, ⟨g, rfl⟩, ⟨[], by simp⟩, ⟨[], by simp⟩, fun _ _ => ⟨rfl, rfl, rfl⟩⟩
+
+theorem ext_registerPoll {rec : St → Name → St × Res} (h : GSpecE rec) (c : ModCfg) : StepE (registerPoll rec c) := by
+  intro st
+  unfold registerPoll
+  split
+  · split
+    · cases findAtt c "io" with
+      | none => exact Ext.refl st
+      | some att =>
+        have f1 := ext_resolve h c.name att st
+        cases hr : resolve rec c.name att st with
+        | mk st1 res =>
+          rw [hr] at f1
+          simp only [hr]
+          cases res with
+          | mod d => exact f1.trans (ext_groups st1 _)
+          | nothing => exact f1
+          | raised cls => exact f1
+    · exact ext_groups st _
+  · exact Ext.refl st
+
+theorem ext_seq : ∀ (fs : List Step), (∀ f ∈ fs, StepE f) → StepE (seq fs) := by
+  intro fs
+  induction fs with
+  | nil => intro _ st; exact Ext.refl st
+  | cons f fs ih =>
+    intro hall st
+    have f1 := hall f (by simp) st
+    simp only [seq]
+    cases hf : f st with
+    | mk st1 e =>
+      rw [hf] at f1
+      cases e with
+      | some e => exact f1
+      | none => exact f1.trans (ih (fun g hg => hall g (by simp [hg])) st1)
+
+theorem ext_initBody {rec : St → Name → St × Res} (h : GSpecE rec) (c : ModCfg) : StepE (initBody rec c) := by
+  unfold initBody
+  apply ext_seq
+  intro f hf
+  simp only [List.mem_append, List.mem_map, List.mem_singleton, List.mem_cons, List.not_mem_nil, or_false] at hf
+  rcases hf with ((((rfl | ⟨a, _, rfl⟩) | (rfl | rfl | rfl | rfl)) | ⟨a, _, rfl⟩) | rfl) | ⟨a, _, rfl⟩
+  · exact ext_emitStep _
+  · exact ext_touch h c a
+  · exact ext_failIf _ _
+  · exact ext_emitStep _
+  · exact ext_hasIoCheck h c
+  · exact ext_registerPoll h c
+  · exact ext_touch h c a
+  · exact ext_failIf _ _
+  · exact ext_resolveStep h c a
+
+theorem ext_finishInit (st : St) (m : Name) (exc : Option String) : Ext st (finishInit st m exc) := by
+  cases exc with
+  | none => exact Ext.of_same rfl rfl rfl rfl rfl rfl
+  | some e =>
+    refine ⟨rfl, by intro h; simp [finishInit, noteFailure] at h, fun _ h => h, ⟨[], by simp [finishInit, noteFailure]⟩,
+      ⟨[], by simp [finishInit, noteFailure]⟩, ⟨[], by simp [finishInit, noteFailure]⟩, ?_⟩
+    intro _ h; simp [finishInit, noteFailure] at h
+
+theorem ext_getModule : ∀ fuel, GSpecE (getModule fuel) := by
+  intro fuel
+  induction fuel with
+  | zero => intro st name; exact Ext.of_same rfl rfl rfl rfl rfl rfl
+  | succ fuel ih =>
+    intro st name
+    have q := ext_getModuleInstance st name
+    simp only [getModule]
+    cases hI : getModuleInstance st name with
+    | mk sI r =>
+      rw [hI] at q
+      cases r with
+      | none => exact q
+      | raised cls => exact q
+      | ok m =>
+        simp only
+        split
+        · exact q
+        · split
+          · exact q
+          · have e1 : Ext sI { sI with stack := m :: sI.stack } := Ext.of_same rfl rfl rfl rfl rfl rfl
+            have e2 := ext_initBody ih { cfgOf sI m with name := m } { sI with stack := m :: sI.stack }
+            cases hB : initBody (getModule fuel) { cfgOf sI m with name := m } { sI with stack := m :: sI.stack } with
+            | mk st2 exc =>
+              rw [hB] at e2
+              exact (q.trans (e1.trans e2)).trans (ext_finishInit st2 m exc)
+
+theorem ext_initAll (fuel : Nat) : ∀ (ms : List Name) (st : St), Ext st (initAll fuel ms st) := by
+  intro ms
+  induction ms with
+  | nil => intro st; exact Ext.refl st
+  | cons a ms ih => intro st; exact (ext_getModule fuel st a).trans (ih _)
+
+/-! ## `create_modules`: when the creation loop is through, every known description has been tried -/
+
+/-- loop invariant of the `while todos` loop -/
+def KL (todos : List ModCfg) (st : St) : Prop :=
+  ∀ k ∈ st.known, k.name ∈ st.modules ∨ st.errors ≠ [] ∨ k.name ∈ todos.map (·.name)
+
+theorem mem_upsert {l : List ModCfg} {c k : ModCfg} (h : k ∈ upsertCfg l c) : k = c ∨ k ∈ l := by
+  unfold upsertCfg at h
+  split at h
+  · obtain ⟨x, hx, rfl⟩ := List.mem_map.mp h
+    split
+    · exact Or.inl rfl
+    · exact Or.inr hx
+  · rcases List.mem_append.mp h with h | h
+    · exact Or.inr h
+    · exact Or.inl (by simpa using h)
+
+theorem self_mem_upsert (l : List ModCfg) (c : ModCfg) : ∃ k ∈ upsertCfg l c, k.name = c.name := by
+  unfold upsertCfg
+  split
+  · rename_i h
+    obtain ⟨x, hx, hn⟩ := List.any_eq_true.mp h
+    refine ⟨c, List.mem_map.mpr ⟨x, hx, by simp [hn]⟩, rfl⟩
+  · exact ⟨c, by simp, rfl⟩
+
+theorem findCfg_ne_none {l : List ModCfg} {n : Name} (h : ∃ k ∈ l, k.name = n) : findCfg l n ≠ none := by
+  obtain ⟨k, hk, hn⟩ := h
+  unfold findCfg
+  intro hnone
+  have := List.find?_eq_none.mp hnone k hk
+  simp [hn] at this
+
+/-- `get_module_instance` returns the module asked for, which then is a module of the node; `None` means an error was
+recorded; an exception means the name is not known -/
+theorem getModuleInstance_res (st : St) (name : Name) :
+    (∀ m, (getModuleInstance st name).2 = Res.ok m → m = name ∧ name ∈ (getModuleInstance st name).1.modules) ∧
+    ((getModuleInstance st name).2 = Res.none → (getModuleInstance st name).1.errors ≠ []) ∧
+    (∀ cls, (getModuleInstance st name).2 = Res.raised cls → findCfg st.known name = none) := by
+  unfold getModuleInstance
+  split
+  · rename_i hc
+    refine ⟨fun m h => ?_, fun h => ?_, fun _ h => ?_⟩
+    · cases h; exact ⟨rfl, by simpa using hc⟩
+    · cases h
+    · cases h
+  · split
+    · rename_i hf
+      refine ⟨fun m h => ?_, fun h => ?_, fun _ _ => hf⟩
+      · cases h
+      · cases h
+    · rename_i c hc
+      have hcn := (findCfg_some hc).2
+      split
+      · refine ⟨fun m h => ?_, fun _ => by simp [addErr], fun _ h => ?_⟩
+        · cases h
+        · cases h
+      · have hn : (hasIoCreate st c).2.name = c.name := by
+          unfold hasIoCreate
+          split
+          · split <;> simp [setIo]
+          · rfl
+        refine ⟨fun m h => ?_, fun h => ?_, fun _ h => ?_⟩
+        · cases h
+          refine ⟨rfl, ?_⟩
+          simp only [addModule]
+          split
+          · rename_i hc'; rw [hn, hcn] at hc'; simpa using hc'
+          · rw [hn, hcn]; simp
+        · cases h
+        · cases h
+
+theorem kl_createOne (fuel : Nat) (dyn : List ModCfg) (c : ModCfg) (rest : List ModCfg) (st : St)
+    (h : KL (c :: rest) st) : KL (rest ++ (createOne fuel dyn c st).2) (createOne fuel dyn c st).1 := by
+  unfold createOne
+  split
+  · rename_i hc
+    intro k hk
+    rcases h k hk with hm | he | hn
+    · exact Or.inl hm
+    · exact Or.inr (Or.inl he)
+    · simp only [List.map_cons, List.mem_cons] at hn
+      rcases hn with hn | hn
+      · left; rw [hn]; simpa using hc
+      · right; right; simp [hn]
+  · simp only
+    have hres := getModuleInstance_res { st with known := upsertCfg st.known c } c.name
+    have hext := ext_getModuleInstance { st with known := upsertCfg st.known c } c.name
+    -- after `get_module_instance`: `c` has been tried
+    have hc : c.name ∈ (getModuleInstance { st with known := upsertCfg st.known c } c.name).1.modules ∨
+        (getModuleInstance { st with known := upsertCfg st.known c } c.name).1.errors ≠ [] := by
+      cases hr : (getModuleInstance { st with known := upsertCfg st.known c } c.name).2 with
+      | ok m => exact Or.inl (hres.1 m hr).2
+      | none => exact Or.inr (hres.2.1 hr)
+      | raised cls => exact absurd (hres.2.2 cls hr) (findCfg_ne_none (self_mem_upsert st.known c))
+    -- whatever follows (the initialisation of a Pinata) only adds
+    have key : ∀ s' : St, Ext (getModuleInstance { st with known := upsertCfg st.known c } c.name).1 s' →
+        ∀ more, KL (rest ++ more) s' := by
+      intro s' he more k hk
+      rw [he.known, hext.known] at hk
+      have hmono : ∀ x, x ∈ st.modules → x ∈ s'.modules := fun x hx => he.mods x (hext.mods x hx)
+      have herr : st.errors ≠ [] → s'.errors ≠ [] := fun hne hs => hne (hext.errs (he.errs hs))
+      rcases mem_upsert hk with rfl | hk
+      · rcases hc with hm | hne
+        · exact Or.inl (he.mods _ hm)
+        · exact Or.inr (Or.inl (fun hs => hne (he.errs hs)))
+      · rcases h k hk with hm | hne | hn
+        · exact Or.inl (hmono _ hm)
+        · exact Or.inr (Or.inl (herr hne))
+        · simp only [List.map_cons, List.mem_cons] at hn
+          rcases hn with hn | hn
+          · rcases hc with hm | hne
+            · left; rw [hn]; exact he.mods _ hm
+            · exact Or.inr (Or.inl (fun hs => hne (he.errs hs)))
+          · right; right; simp [hn]
+    cases hI : getModuleInstance { st with known := upsertCfg st.known c } c.name with
+    | mk sI r =>
+      rw [hI] at key
+      cases r with
+      | none => exact key sI (Ext.refl _) []
+      | raised cls => exact key sI (Ext.refl _) []
+      | ok m =>
+        simp only
+        split
+        · exact key _ (ext_getModule fuel sI m) _
+        · exact key sI (Ext.refl _) []
+
+theorem kc_createLoop (dyn : List ModCfg) (gfuel : Nat) : ∀ (n : Nat) (todos : List ModCfg) (st : St), KL todos st →
+    (createLoop dyn gfuel n todos st).oof = false → KC (createLoop dyn gfuel n todos st) := by
+  intro n
+  induction n with
+  | zero =>
+    intro todos st h hoof
+    cases todos with
+    | nil =>
+      intro k hk
+      rcases h k hk with hm | he | hn
+      · exact Or.inl hm
+      · exact Or.inr he
+      · simp at hn
+    | cons c rest => simp [createLoop] at hoof
+  | succ n ih =>
+    intro todos st h hoof
+    cases todos with
+    | nil =>
+      intro k hk
+      rcases h k hk with hm | he | hn
+      · exact Or.inl hm
+      · exact Or.inr he
+      · simp at hn
+    | cons c rest =>
+      simp only [createLoop] at hoof ⊢
+      have h1 := kl_createOne gfuel dyn c rest st h
+      cases hC : createOne gfuel dyn c st with
+      | mk s1 more =>
+        rw [hC] at h1 hoof
+        exact ih (rest ++ more) s1 h1 hoof
+
+/-- the state after the creation loop -/
+def created (cfg : Cfg) (fuel : Nat) : St := createLoop cfg.dyn fuel fuel cfg.mods { known := cfg.mods }
+
+theorem core_eq (cfg : Cfg) (fuel : Nat) :
+    core cfg fuel = initAll fuel (initAll fuel (created cfg fuel).modules (created cfg fuel)).exportL
+      (initAll fuel (created cfg fuel).modules (created cfg fuel)) := rfl
+
+theorem ext_created_core (cfg : Cfg) (fuel : Nat) : Ext (created cfg fuel) (core cfg fuel) := by
+  rw [core_eq]
+  exact (ext_initAll fuel _ _).trans (ext_initAll fuel _ _)
+
+theorem created_oof (cfg : Cfg) (fuel : Nat) (h : (core cfg fuel).oof = false) : (created cfg fuel).oof = false := by
+  obtain ⟨t1, _⟩ := top_createLoop cfg.dyn fuel fuel cfg.mods _ (inv_init cfg.mods)
+  obtain ⟨t2, m2, _⟩ := top_initAll fuel (created cfg fuel).modules _ t1
+  obtain ⟨_, m3, _⟩ := top_initAll fuel (initAll fuel (created cfg fuel).modules (created cfg fuel)).exportL _ t2
+  cases ho : (created cfg fuel).oof with
+  | false => rfl
+  | true =>
+    have : (core cfg fuel).oof = true := m3.oof (m2.oof ho)
+    rw [h] at this
+    cases this
+
+theorem kc_created (cfg : Cfg) (fuel : Nat) (h : (core cfg fuel).oof = false) : KC (created cfg fuel) := by
+  apply kc_createLoop
+  · intro k hk
+    right; right
+    exact List.mem_map.mpr ⟨k, hk, rfl⟩
+  · exact created_oof cfg fuel h
+
+/-- **nothing is created after the creation loop** in a node that comes up: the modules, the module objects and the
+table of automatic communicators of the node are those the creation loop left -/
+theorem core_nothing_created_late (cfg : Cfg) (fuel : Nat) (herr : (core cfg fuel).errors = [])
+    (hoof : (core cfg fuel).oof = false) :
+    (core cfg fuel).modules = (created cfg fuel).modules ∧ (core cfg fuel).mcfg = (created cfg fuel).mcfg ∧
+    (core cfg fuel).ioDict = (created cfg fuel).ioDict :=
+  (ext_created_core cfg fuel).nc (kc_created cfg fuel hoof) herr
+
+/-- every module of a node that comes up has been initialised -/
+theorem core_all_inited (cfg : Cfg) (fuel : Nat) (herr : (core cfg fuel).errors = [])
+    (hoof : (core cfg fuel).oof = false) : ∀ m ∈ (core cfg fuel).modules, m ∈ (core cfg fuel).inited := by
+  intro m hm
+  rw [(core_nothing_created_late cfg fuel herr hoof).1] at hm
+  exact core_created_inited cfg fuel hoof m hm
+
+/-! ## a node that came up: every module early-initialised, initialised, started — once, in that order -/
+
+theorem pairwise_of_right {R : Ev → Ev → Prop} : ∀ (l : List Ev), (∀ a, ∀ b ∈ l, R a b) → l.Pairwise R
+  | [], _ => List.Pairwise.nil
+  | a :: l, h => List.Pairwise.cons (fun b hb => h a b (by simp [hb]))
+      (pairwise_of_right l (fun x y hy => h x y (by simp [hy])))
+
+theorem count_start_startEvents_mem (st : St) (hnd : st.modules.Nodup) (m : Name) (hm : m ∈ st.modules) :
+    (startEvents st).count (Ev.start m) = 1 := by
+  have hle := count_start_startEvents st hnd m
+  have hpos : 0 < (startEvents st).count (Ev.start m) := by
+    apply List.count_pos_iff.mpr
+    unfold startEvents
+    refine List.mem_flatMap.mpr ⟨m, hm, ?_⟩
+    unfold startOne
+    split <;> simp
+  omega
+
+theorem startup_core (cfg : Cfg) (fuel : Nat) (herr : (startup cfg fuel).errors = []) :
+    startup cfg fuel = core cfg fuel ∧ (core cfg fuel).errors = [] := by
+  have hcore : (core cfg fuel).errors = [] := by
+    rw [startup_eq] at herr
+    split at herr
+    · exact herr
+    · simpa [emit] using herr
+  exact ⟨by rw [startup_eq]; simp [hcore], hcore⟩
+
+theorem run_init_order_once (cfg : Cfg) (fuel : Nat) (sched : List Act) (pick : List Name → Nat)
+    (herr : (run cfg fuel sched pick).st.errors = []) (hoof : (run cfg fuel sched pick).st.oof = false) :
+    InitOrderOnce (run cfg fuel sched pick).st.modules (run cfg fuel sched pick).log := by
+  rw [(run_log cfg fuel sched pick).1] at herr hoof ⊢
+  rw [(run_log cfg fuel sched pick).2]
+  obtain ⟨hst, hcore⟩ := startup_core cfg fuel herr
+  simp only [herr, List.isEmpty_nil, if_true]
+  rw [hst] at hoof ⊢
+  intro m hm
+  have hin := core_all_inited cfg fuel hcore hoof m hm
+  have ht := top_core cfg fuel
+  have hnoI : ∀ e ∈ laterPart (core cfg fuel) sched pick, isInitEv e = false :=
+    fun e he => (later_no_init _ sched pick e he).2
+  have h1 : OnceInOrder (Ev.early m) (Ev.init m) ((core cfg fuel).log ++ laterPart (core cfg fuel) sched pick) := by
+    apply onceInOrder_append _ _ _ _ (core_once cfg fuel hcore m hin)
+    · intro h; have := hnoI _ h; simp [isInitEv] at this
+    · intro h; have := hnoI _ h; simp [isInitEv] at this
+  refine ⟨h1, h1.2.1, ?_, ?_⟩
+  · rw [List.count_append, top_no_start _ ht m]
+    have hw : (laterPart (core cfg fuel) sched pick).count (Ev.start m) = (startEvents (core cfg fuel)).count (Ev.start m) := by
+      have hs : (shutdownLog (core cfg fuel).modules (threadsOf (core cfg fuel)) (core cfg fuel).edges pick).count
+          (Ev.start m) = 0 := by
+        apply List.count_eq_zero.mpr
+        intro hm'
+        simp only [shutdownLog, List.mem_append, List.mem_map] at hm'
+        rcases hm' with (⟨x, _, hx⟩ | ⟨x, _, hx⟩) | ⟨x, _, hx⟩ <;> cases hx
+      have hw' : (waitPhase (core cfg fuel) sched).count (Ev.start m) = (startEvents (core cfg fuel)).count (Ev.start m) := by
+        rw [← start_loop_complete (core cfg fuel) sched, List.count_filter]
+        rfl
+      simp [laterPart, List.count_append, hw', hs]
+    rw [hw, count_start_startEvents_mem _ ht.1.modsNd m hm]
+  · unfold NeverAfter
+    rw [List.pairwise_append]
+    refine ⟨pairwise_of_left _ (fun x hx y hh => ?_), pairwise_of_right _ (fun x y hy hh => ?_), fun x hx y _ hh => ?_⟩
+    · have : x = Ev.start m := beq_iff_eq.mp hh.1
+      subst this
+      have := ht.1.shape _ hx
+      simp [isInitEv] at this
+    · have : y = Ev.init m := beq_iff_eq.mp hh.2
+      subst this
+      have := hnoI _ hy
+      simp [isInitEv] at this
+    · have : x = Ev.start m := beq_iff_eq.mp hh.1
+      subst this
+      have := ht.1.shape _ hx
+      simp [isInitEv] at this
 
 end Frappy.Proofs.LifecycleParams
